@@ -118,6 +118,44 @@ class FuncFacts(object):
             for t in target.elts:
                 self._bind_elem(t, it)
 
+    def _is_slice_value(self, e: ast.expr, depth: int = 2) -> bool:
+        """the index is a slice object: `slice(a, b)` spelled out, a local bound only to such, or a parameter every caller
+        in the code base passes one for (rec[region] with region = slice(None, n))"""
+        if isinstance(e, ast.Call) and isinstance(e.func, ast.Name) and e.func.id == "slice":
+            return True
+        if not isinstance(e, ast.Name) or depth <= 0:
+            return False
+        vals = self.assigns.get(e.id, [])
+        if vals:
+            return all(self._is_slice_value(v, depth - 1) for v in vals)
+        if e.id in self.params and e.id != self.self_name:
+            a = self.fi.node.args
+            positional = [x.arg for x in a.posonlyargs + a.args]
+            idx = positional.index(e.id) if e.id in positional else None
+            bound = self.self_name is not None
+            seen = 0
+            for g in self.eff.all_functions():
+                for c in ast.walk(g.node):
+                    if not isinstance(c, ast.Call):
+                        continue
+                    f = c.func
+                    nm = f.attr if isinstance(f, ast.Attribute) else f.id if isinstance(f, ast.Name) else None
+                    if nm != self.fi.name:
+                        continue
+                    arg = next((k.value for k in c.keywords if k.arg == e.id), None)
+                    if arg is None and idx is not None:
+                        j = idx - (1 if (bound and isinstance(f, ast.Attribute)) else 0)
+                        if 0 <= j < len(c.args):
+                            arg = c.args[j]
+                    if arg is None:
+                        return False
+                    gf = self.eff.facts(g)
+                    if not gf._is_slice_value(arg, depth - 1):
+                        return False
+                    seen += 1
+            return seen > 0
+        return False
+
     # -- provenance ---------------------------------------------------------
 
     def own_prov(self, name: str) -> Set[str]:
@@ -175,7 +213,7 @@ class FuncFacts(object):
                     out.add(b)
             return out
         if isinstance(e, ast.Subscript):
-            if isinstance(e.slice, ast.Slice):
+            if isinstance(e.slice, ast.Slice) or self._is_slice_value(e.slice):
                 # records: CircularRecord.__getitem__ deep-copies (rule getitem.deepcopy); lists/str: new object
                 return {"fresh"}
             if self.eff.own_mode:
@@ -357,6 +395,18 @@ class Effects(object):
                 if isinstance(v, FuncInfo):
                     self._by_name.setdefault(a, []).append(v)
 
+    def all_functions(self) -> List[FuncInfo]:
+        out = getattr(self, "_all_functions", None)
+        if out is None:
+            out = []
+            for mn, m in self.p.modules.items():
+                if mn.startswith("moclo"):
+                    out.extend(m.functions.values())
+                    for ci in m.classes.values():
+                        out.extend(v for v in ci.attrs.values() if isinstance(v, FuncInfo))
+            self._all_functions = out
+        return out
+
     def facts(self, fi: FuncInfo) -> FuncFacts:
         k = id(fi)
         if k not in self._facts:
@@ -517,6 +567,7 @@ class Effects(object):
                     # x.a.b.append(v): the container is reached from x by attributes only -- what was stored *into* x (or
                     # into one of its containers) earlier is not on the way
                     roots = self.in_own_mode(lambda: ff.prov(recv))
+                    own = True  # ... and callers are asked the same question: which object, not what it holds
                 else:
                     roots = ff.own_prov(recv.id) if own else ff.prov(recv)
                 out.append(Site(fi, node, "call:" + node.func.attr, node.func, roots, own=own))
@@ -713,6 +764,11 @@ def classify_input_write(site: Site) -> Optional[str]:
     in_pair = is_ref or id(site.fi) in _cph(site.fi.module.program)
     if in_pair and site.kind == "call:setdefault" and ("annotations" in pstr or "annotations" in seg) and "'references'" in seg.replace('"', "'"):
         return "A3 annotations.setdefault('references', []) (explicitly tolerated: absent == empty)"
+    if not in_pair and site.kind == "call:append":
+        # a list-merging helper the re-reference function shares with others (merge(references, extra)): the guarded
+        # append of the idiom, wherever it was factored out to
+        from .roles import reach as _reach
+        in_pair = any(g is site.fi for g in _reach(site.fi.module.program, ref_f))
     if site.kind == "call:append" and (is_ref and root == "references" or (not is_ref and in_pair and _is_reference_list(site, root))):
         return "A4 references.append(ref) guarded by 'ref not in references' (never fires for an input: its citations came from its own list)"
     return None
@@ -853,6 +909,135 @@ def _is_value_store(p, s: Site) -> bool:
     return id(s.fi) in citation_value_stores(p) or (id(s.fi) in citation_private_helpers(p) and isinstance(s.target, ast.Subscript))
 
 
+def _default_false(eff: "Effects", g: FuncInfo, e: ast.expr, depth: int) -> bool:
+    """is the expression false when every option involved is left at its default?  A false constant, a parameter that
+    defaults to something false (and is only ever passed such expressions), a local bound once to such an expression,
+    `<option> == <constant other than its default>`."""
+    if isinstance(e, ast.Constant):
+        return not e.value
+    a = g.node.args
+    pos = a.posonlyargs + a.args
+    defaults = {prm.arg: d for prm, d in list(zip(pos[len(pos) - len(a.defaults):], a.defaults)) + [(k, d) for k, d in zip(a.kwonlyargs, a.kw_defaults) if d is not None]}
+    if isinstance(e, ast.Name):
+        if e.id in defaults:
+            d = defaults[e.id]
+            return isinstance(d, ast.Constant) and not d.value and (depth <= 0 or _callers_pass_falsy(eff, g, e.id, depth - 1))
+        binds = [n.value for n in ast.walk(g.node) if isinstance(n, ast.Assign) and len(n.targets) == 1 and isinstance(n.targets[0], ast.Name) and n.targets[0].id == e.id]
+        return len(binds) == 1 and _default_false(eff, g, binds[0], depth)
+    if isinstance(e, ast.Compare) and len(e.ops) == 1 and isinstance(e.ops[0], (ast.Eq, ast.Is)) and isinstance(e.comparators[0], ast.Constant):
+        left = e.left
+        dv = None
+        if isinstance(left, ast.Name) and left.id in defaults and isinstance(defaults[left.id], ast.Constant):
+            dv = ("v", defaults[left.id].value)
+        elif isinstance(left, ast.Attribute) and isinstance(left.value, ast.Name) and g.owner is not None and pos and left.value.id == pos[0].arg:
+            _, init = eff.p.class_attr_def(g.owner, "__init__")
+            if isinstance(init, FuncInfo):
+                ia = init.node.args
+                ipos = ia.posonlyargs + ia.args
+                idef = {prm.arg: d.value for prm, d in list(zip(ipos[len(ipos) - len(ia.defaults):], ia.defaults)) + [
+                    (k, d) for k, d in zip(ia.kwonlyargs, ia.kw_defaults) if d is not None] if isinstance(d, ast.Constant)}
+                for n in ast.walk(init.node):
+                    if isinstance(n, ast.Assign) and any(isinstance(t, ast.Attribute) and t.attr == left.attr for t in n.targets):
+                        names = [x.id for x in ast.walk(n.value) if isinstance(x, ast.Name) and x.id in idef]
+                        if len(names) == 1:
+                            dv = ("v", idef[names[0]])
+        return dv is not None and dv[1] != e.comparators[0].value
+    return False
+
+
+def _callers_pass_falsy(eff: "Effects", fi: FuncInfo, param: str, depth: int) -> bool:
+    """every call of fi in the code base that passes `param` passes something false by default"""
+    a = fi.node.args
+    positional = [x.arg for x in a.posonlyargs + a.args]
+    bound = fi.owner is not None and fi.kind in ("method", "classmethod", "property")
+    for g in eff.all_functions():
+        for c in ast.walk(g.node):
+            if not isinstance(c, ast.Call):
+                continue
+            f = c.func
+            nm = f.attr if isinstance(f, ast.Attribute) else f.id if isinstance(f, ast.Name) else None
+            if nm != fi.name:
+                continue
+            arg = next((k.value for k in c.keywords if k.arg == param), None)
+            if arg is None and param in positional:
+                j = positional.index(param) - (1 if (bound and isinstance(f, ast.Attribute)) else 0)
+                if 0 <= j < len(c.args) and not any(isinstance(x, ast.Starred) for x in c.args[: j + 1]):
+                    arg = c.args[j]
+            if arg is not None and not _default_false(eff, g, arg, depth):
+                return False
+    return True
+
+
+def _opt_in_guarded(eff: "Effects", fi: FuncInfo, node: ast.AST, depth: int = 2) -> Optional[str]:
+    """the statement only runs when a parameter of its function that defaults to something false (flag=False, mode=None)
+    was given a true value -- or its function is only ever called from such places: an opt-in path next to the existing
+    behaviour.  Returns the flag's name."""
+    parents: Dict[int, ast.AST] = {}
+    for n in ast.walk(fi.node):
+        for ch in ast.iter_child_nodes(n):
+            parents[id(ch)] = n
+    a = fi.node.args
+    pos = a.posonlyargs + a.args
+    falsy = {}
+    for prm, d in list(zip(pos[len(pos) - len(a.defaults):], a.defaults)) + [(k, d) for k, d in zip(a.kwonlyargs, a.kw_defaults) if d is not None]:
+        if isinstance(d, ast.Constant) and not d.value:
+            falsy[prm.arg] = True
+    def default_of(e: ast.expr):
+        """(name, default constant) of a parameter, or of an instance attribute the constructor fills from a parameter
+        (self.mode = check(mode) counts: the checker hands the value on or raises)"""
+        if isinstance(e, ast.Name):
+            for prm, d in list(zip(pos[len(pos) - len(a.defaults):], a.defaults)) + [(k, d) for k, d in zip(a.kwonlyargs, a.kw_defaults) if d is not None]:
+                if prm.arg == e.id and isinstance(d, ast.Constant):
+                    return e.id, d.value
+        if isinstance(e, ast.Attribute) and isinstance(e.value, ast.Name) and fi.owner is not None and pos and e.value.id == pos[0].arg:
+            _, init = eff.p.class_attr_def(fi.owner, "__init__")
+            if isinstance(init, FuncInfo):
+                ia = init.node.args
+                ipos = ia.posonlyargs + ia.args
+                idef = {prm.arg: d.value for prm, d in list(zip(ipos[len(ipos) - len(ia.defaults):], ia.defaults)) + [
+                    (k, d) for k, d in zip(ia.kwonlyargs, ia.kw_defaults) if d is not None] if isinstance(d, ast.Constant)}
+                for n in ast.walk(init.node):
+                    if isinstance(n, ast.Assign) and any(isinstance(t, ast.Attribute) and t.attr == e.attr and isinstance(t.value, ast.Name) for t in n.targets):
+                        names = [x.id for x in ast.walk(n.value) if isinstance(x, ast.Name) and x.id in idef]
+                        if len(names) == 1:
+                            return "%s.%s" % (e.value.id, e.attr), idef[names[0]]
+        return None
+
+    cur = node
+    while id(cur) in parents:
+        par = parents[id(cur)]
+        if isinstance(par, ast.If) and cur in par.body:
+            t = par.test
+            if isinstance(t, ast.Compare) and len(t.ops) == 1 and isinstance(t.ops[0], (ast.Eq, ast.Is)) and isinstance(t.comparators[0], ast.Constant):
+                d = default_of(t.left)
+                if d is not None and d[1] != t.comparators[0].value:
+                    return d[0]  # runs only for a value of the option other than its default
+            if isinstance(t, ast.Name) and t.id in falsy and _callers_pass_falsy(eff, fi, t.id, depth):
+                return t.id
+            if isinstance(t, ast.Compare) and isinstance(t.left, ast.Name) and t.left.id in falsy and len(t.ops) == 1 \
+                    and isinstance(t.ops[0], (ast.IsNot, ast.NotEq)) and isinstance(t.comparators[0], ast.Constant) and not t.comparators[0].value \
+                    and _callers_pass_falsy(eff, fi, t.left.id, depth):
+                return t.left.id
+        cur = par
+    if depth <= 0:
+        return None
+    # every call site of the function in the code base is on such a path
+    flags = []
+    seen = 0
+    for g in eff.all_functions():
+        for c in ast.walk(g.node):
+            if isinstance(c, ast.Call):
+                f = c.func
+                nm = f.attr if isinstance(f, ast.Attribute) else f.id if isinstance(f, ast.Name) else None
+                if nm == fi.name and g is not fi:
+                    seen += 1
+                    fl = _opt_in_guarded(eff, g, c, depth - 1)
+                    if fl is None:
+                        return None
+                    flags.append("%s of %s" % (fl, g.name))
+    return flags[0] if seen else None
+
+
 def feature_writers(ctx, rule: str, eff: Effects, sites: List[Site]):
     """C08 (c): along the assembly path the only writer of a feature list is
     add_as_source (append) and the only writer of a qualifier is the citation
@@ -869,11 +1054,21 @@ def feature_writers(ctx, rule: str, eff: Effects, sites: List[Site]):
             seen.add(key)
             from .roles import source_annotator
             ok = s.fi is source_annotator(eff.p) and s.kind == "call:append"
+            if not ok:
+                flag = _opt_in_guarded(eff, s.fi, s.node)
+                if flag is not None:
+                    raise AnalysisError("%s: the feature list is modified on a path that only runs when the option `%s` is switched on "
+                                        "(`%s`); what that opt-in mode does to the inherited annotations is not decided here" % (s.where, flag, s.text()))
             r.ob(rule + ".feature-list-writer", "%s@%s" % (s.fi.qualname, _norm_stmt(s.text())), ok,
                  "the feature list of a record on the assembly path is modified outside add_as_source's append: `%s`" % s.text(), s.where)
         elif ".qualifiers" in pstr or (s.kind == "store" and _is_citation_list(s, root)) or (s.kind == "store" and _is_value_store(eff.p, s)):
             seen.add(key)
             ok = (classify_input_write(s) or "").startswith(("A1 citation slot store", "A2 citation slot store", "A1/A2 citation slot store"))
+            if not ok:
+                flag = _opt_in_guarded(eff, s.fi, s.node)
+                if flag is not None:
+                    raise AnalysisError("%s: a qualifier is modified on a path that only runs when the option `%s` is switched on (`%s`); "
+                                        "what that opt-in mode does to the inherited annotations is not decided here" % (s.where, flag, s.text()))
             r.ob(rule + ".qualifier-writer", "%s@%s" % (s.fi.qualname, _norm_stmt(s.text())), ok,
                  "an inherited qualifier is modified outside the citation rewrite: `%s`" % s.text(), s.where)
     r.floor(rule + ".feature-list-writer", 1)
@@ -1043,6 +1238,9 @@ def persistent_state_rule(ctx, rule: str, scope_modules=("moclo.core._structured
                         det = "module-level state `%s` is modified at call time and outlives the call" % name
                     _emit(r, label, rule + ".module-state", "%s#%s" % (qn, name), ok, det, where, nd)
     r.analysed["class_level_slots_written_at_call_time"] = n_class_slots
+    # an object of the code base created once and kept at class or module level (a default options object, a table
+    # object) is shared by every call: its own methods must not write to it
+    ctx.guard(shared_instance_rule, ctx, rule + ".shared-instance", scope_modules)
     # library memo decorators are persistent state too (the evaluators look through them)
     ctx.guard(memo_purity_rule, ctx, rule + ".memo-purity")
     # ... and so is what a descriptor class of the code base keeps on the class it is read from
@@ -1288,6 +1486,56 @@ def _own_namespace_test(test: ast.expr, slot: str, me: str) -> bool:
         return True
     return isinstance(c, ast.Call) and isinstance(c.func, ast.Name) and c.func.id == "vars" and len(c.args) == 1 \
         and isinstance(c.args[0], ast.Name) and c.args[0].id == me
+
+
+def shared_instance_rule(ctx, rule: str, scope_modules):
+    """`_options = SearchOptions()` in a class body, `DEFAULT = Options()` at module level: one object for the whole
+    process.  A method of its class (other than the constructor) that assigns one of its attributes, or fills a container
+    it holds, changes what every later call sees -- the first record typed decides for the rest."""
+    p = ctx.program
+    r = ctx.report
+    shared = []  # (where it is kept, class of the object)
+    for mn in scope_modules:
+        m = p.modules.get(mn)
+        if m is None:
+            continue
+        holders = [("%s.%s" % (mn, k), v) for k, v in m.assigns.items()]
+        for ci in m.classes.values():
+            holders += [("%s.%s" % (ci.qualname, k), v) for k, v in ci.attrs.items() if isinstance(v, ast.AST)]
+        for where, v in holders:
+            if isinstance(v, ast.Call) and isinstance(v.func, (ast.Name, ast.Attribute)):
+                try:
+                    c = p.resolve_expr(m, v.func)
+                except Exception:
+                    c = None
+                if isinstance(c, ClassInfo) and c.module is not None and c.module.name.startswith("moclo") and not any(
+                        isinstance(b, Ext) and b.dotted not in ("builtins.object",) for b in p.mro(c)):
+                    shared.append((where, c))
+    for where, c in shared:
+        bad = []
+        for cc in p.mro(c):
+            if not isinstance(cc, ClassInfo):
+                continue
+            for name, raw in cc.attrs.items():
+                if not isinstance(raw, FuncInfo) or name in ("__init__", "__new__", "__set_name__") or not raw.node.args.args or raw.kind in ("classmethod", "staticmethod"):
+                    continue
+                me = raw.node.args.args[0].arg
+                for n in ast.walk(raw.node):
+                    tgts = n.targets if isinstance(n, ast.Assign) else [n.target] if isinstance(n, (ast.AugAssign, ast.AnnAssign)) else []
+                    for t in tgts:
+                        for tt in (t.elts if isinstance(t, (ast.Tuple, ast.List)) else [t]):
+                            root, path = chain_of(tt) if isinstance(tt, (ast.Attribute, ast.Subscript)) else (None, [])
+                            if root == me and path:
+                                bad.append((raw, n))
+                    if isinstance(n, ast.Call) and isinstance(n.func, ast.Attribute) and n.func.attr in MUTATORS:
+                        root, path = chain_of(n.func.value)
+                        if root == me and path:
+                            bad.append((raw, n))
+        r.ob(rule, "%s#%s" % (where, c.name), not bad,
+             "%s keeps one %s for the whole process, and %s writes to it (`%s`): what one call leaves there decides the next" % (
+                 where, c.name, bad[0][0].qualname if bad else "", re.sub(r"\s+", " ", ast.unparse(bad[0][1]))[:70] if bad else ""),
+             (bad[0][0].where() if bad else c.where()))
+    r.analysed["shared_instances"] = [w for w, _c in shared]
 
 
 def descriptor_cache_rule(ctx, rule: str):
@@ -1820,7 +2068,15 @@ def builtin_method_lint(ctx, rule: str, scope=("moclo.core", "moclo.regex", "moc
                              "`%s` is a %s here and %s has no attribute `%s` (AttributeError at run time)" % (nm, ty, ty, node.attr),
                              "%s:%d" % (m.relpath, node.lineno))
     r.analysed["builtin_method_uses_checked"] = n_checked
-    r.floor(rule, 4)  # locals bound to a container display and sent a method: fewer after helpers are extracted
+    # a lint: the number of sites it applies to may legitimately be zero (helpers extracted, comprehensions instead of
+    # locals); what keeps it alive is a built-in example that must be recognised on every run
+    fixture = ast.parse("def f():\n    refs = []\n    refs.find(1)\n    refs.append(2)\n").body[0]
+    fb = {t.id: _literal_type(n.value) for n in ast.walk(fixture) if isinstance(n, ast.Assign) for t in n.targets if isinstance(t, ast.Name)}
+    bad = [n.attr for n in ast.walk(fixture) if isinstance(n, ast.Attribute) and isinstance(n.value, ast.Name) and fb.get(n.value.id) == "list"
+           and not hasattr(BUILTIN_TYPES["list"], n.attr)]
+    if bad != ["find"]:
+        raise AnalysisError("the positive fixture of the builtin-method lint did not match: the lint is dead")
+    r.floor(rule, 0)
 
 
 # ---------------------------------------------------------------------------
